@@ -26,12 +26,14 @@ Theorem C03_large_union_refuted :
   let t := TUnion false (repeat (TPrim PBool) 200) in
   has_type t (VCase 130 (VInt 1)) = true /\ enc_py t (VCase 130 (VInt 1)) <> enc t (VCase 130 (VInt 1)).
 Proof. exact enc_py_differs_large_union. Qed.
+Print Assumptions C03_large_union_refuted.
 
 (* block partition and map entry order are the only freedom: any partition decodes to the same items *)
 Theorem C03_partition_irrelevant : forall schema p ws1 ws2,
   steps_ok p ws1 = true -> steps_ok p ws2 = true -> map sread_of ws1 = map sread_of ws2 ->
   dec_protocol schema p (enc_protocol schema p ws1) = dec_protocol schema p (enc_protocol schema p ws2).
 Proof. exact grouping_irrelevant. Qed.
+Print Assumptions C03_partition_irrelevant.
 
 (* At the level of the typed programs of both generated code bases (Model.PyTyped / PyTypedRead, Model.CppTyped / CppTypedRead,
    each tied to its code by call traces in C01): what the generated Python writer emits, the generated C++ reader reads back
